@@ -79,6 +79,7 @@ type nfSlot struct {
 	rsubs      map[int]bool
 	held       map[string]*nfHeld
 	reached    map[string]bool
+	listed     []string // keys this slot has asked for (generator only)
 }
 
 type nfWorld struct {
@@ -1074,6 +1075,7 @@ type nfGen struct {
 	tail    []string
 	hook    string
 	focus   int // 0 mixed, 1 debounce window, 2 cache races, 3 subscriptions
+	steps   int
 }
 
 func (g *nfGen) pick(xs ...string) string { return xs[g.rng.Intn(len(xs))] }
@@ -1095,7 +1097,7 @@ func (g *nfGen) next(w *nfWorld, step int) string {
 		return fmt.Sprintf("config %s %s %s %s", pc(), pc(), pc(), g.hook)
 	}
 	if step == 1 {
-		return "ttl " + g.pick("0", "1", "60000", "60000")
+		return "ttl " + g.pick("0", "1", "60000", "60000", "60000")
 	}
 	return g.body(w)
 }
@@ -1139,7 +1141,7 @@ func (g *nfGen) body(w *nfWorld) string {
 		switch r := g.rng.Intn(10); {
 		case size == 0 || r < 4:
 			return "change " + f + " add"
-		case r < 7:
+		case r < 6:
 			return "change " + f + " replace"
 		case r < 9 && size >= 2:
 			return "change " + f + " remove"
@@ -1148,6 +1150,23 @@ func (g *nfGen) body(w *nfWorld) string {
 		}
 		return "change " + f + " replace"
 	}
+	// which URIs have a subscriber, which keys a slot has listed before (to get cache hits)
+	subscribed := []int{}
+	for _, i := range conn {
+		for u := range w.slots[i].rsubs {
+			subscribed = append(subscribed, u)
+		}
+	}
+	sort.Ints(subscribed)
+	if g.steps < 3 && g.rng.Intn(10) < 7 {
+		g.steps++
+		return "change " + g.pick("tools", "prompts", "tools", "templates") + " add"
+	}
+	g.steps++
+	if len(conn)+len(gated) == 0 && len(free) > 0 && g.rng.Intn(10) < 6 {
+		g.nextSid++
+		return fmt.Sprintf("connect c%d %d %s %s", free[g.rng.Intn(len(free))], g.nextSid, g.pick("legacy", "modern", "modern"), g.pick("tpr", "tpr", "t", "tp", "r", "-"))
+	}
 	for tries := 0; tries < 20; tries++ {
 		r := g.rng.Intn(100)
 		switch {
@@ -1155,12 +1174,12 @@ func (g *nfGen) body(w *nfWorld) string {
 			return fmt.Sprintf("listen c%d", gated[g.rng.Intn(len(gated))])
 		case len(parked) > 0 && r < 45:
 			return "cbrun " + parked[g.rng.Intn(len(parked))]
-		case r < 22:
+		case r < 20:
 			return changeOp()
-		case r < 40:
+		case r < 36:
 			d := int(notificationDelay / time.Millisecond)
 			return fmt.Sprintf("advance %d", []int{1, d - 1, d, d + 1, 1, d, 2 * d}[g.rng.Intn(7)])
-		case r < 50:
+		case r < 45:
 			if len(free) == 0 {
 				continue
 			}
@@ -1168,7 +1187,7 @@ func (g *nfGen) body(w *nfWorld) string {
 			gen := g.pick("legacy", "modern", "modern")
 			mask := g.pick("tpr", "tpr", "t", "tp", "r", "-")
 			return fmt.Sprintf("connect c%d %d %s %s", free[g.rng.Intn(len(free))], g.nextSid, gen, mask)
-		case r < 56:
+		case r < 50:
 			if len(conn) == 0 {
 				continue
 			}
@@ -1178,23 +1197,35 @@ func (g *nfGen) body(w *nfWorld) string {
 			}
 			g.tail = append(g.tail, "tables")
 			return fmt.Sprintf("close c%d", i)
-		case r < 64:
+		case r < 58:
 			if len(conn) == 0 {
 				continue
 			}
-			g.tail = append(g.tail, "tables")
+			if g.rng.Intn(3) == 0 {
+				g.tail = append(g.tail, "tables")
+			}
 			return fmt.Sprintf("subscribe c%d u%d", conn[g.rng.Intn(len(conn))], g.rng.Intn(2))
-		case r < 70:
+		case r < 62:
 			if len(conn) == 0 {
 				continue
 			}
 			g.tail = append(g.tail, "tables")
-			return fmt.Sprintf("unsubscribe c%d u%d", conn[g.rng.Intn(len(conn))], g.rng.Intn(2))
-		case r < 76:
+			i := conn[g.rng.Intn(len(conn))]
+			u := g.rng.Intn(2)
+			for x := range w.slots[i].rsubs {
+				if g.rng.Intn(2) == 0 {
+					u = x
+				}
+			}
+			return fmt.Sprintf("unsubscribe c%d u%d", i, u)
+		case r < 68:
+			if len(subscribed) > 0 && g.rng.Intn(4) > 0 {
+				return fmt.Sprintf("rupdated u%d", subscribed[g.rng.Intn(len(subscribed))])
+			}
 			return fmt.Sprintf("rupdated u%d", g.rng.Intn(2))
-		case r < 78:
+		case r < 70:
 			return "ttl " + g.pick("0", "1", "60000")
-		case r < 80:
+		case r < 72:
 			return "tables"
 		default:
 			if len(conn) == 0 {
@@ -1203,19 +1234,28 @@ func (g *nfGen) body(w *nfWorld) string {
 			i := conn[g.rng.Intn(len(conn))]
 			sl := w.slots[i]
 			// progress a held call first, most of the time
-			for k, h := range sl.held {
+			hk := make([]string, 0, len(sl.held))
+			for k := range sl.held {
+				hk = append(hk, k)
+			}
+			sort.Strings(hk)
+			for _, k := range hk {
 				if g.rng.Intn(3) > 0 {
-					if h.phase == "pre" {
+					if sl.held[k].phase == "pre" {
 						return fmt.Sprintf("send c%d %s", i, k)
 					}
 					return fmt.Sprintf("fill c%d %s", i, k)
 				}
 			}
 			k := key()
+			if len(sl.listed) > 0 && g.rng.Intn(2) == 0 {
+				k = sl.listed[g.rng.Intn(len(sl.listed))]
+			}
 			if sl.held[k] != nil {
 				continue
 			}
-			return fmt.Sprintf("list c%d %s %s", i, k, g.pick("n", "n", "post", "post", "pre"))
+			sl.listed = append(sl.listed, k)
+			return fmt.Sprintf("list c%d %s %s", i, k, g.pick("n", "n", "n", "post", "post", "pre"))
 		}
 	}
 	return changeOp()
@@ -1234,7 +1274,7 @@ func nfScripted(rng *rand.Rand, hook string, variant int) []string {
 		}
 		ops = append(ops, "fill c0 tools", "list c0 tools n")
 	case 1: // change while the callback is pending
-		ops = append(ops, "connect c0 1 legacy -", "connect c1 2 modern t", "listen c1", "change tools add", fmt.Sprintf("advance %d", d))
+		ops = append(ops, "change tools add", "connect c0 1 legacy -", "connect c1 2 modern t", "listen c1", "change tools add", fmt.Sprintf("advance %d", d))
 		if hook == "hook1" {
 			ops = append(ops, "change tools add", "cbrun tools", "change tools replace", fmt.Sprintf("advance %d", d), "cbrun tools", "cbrun tools")
 		} else {
@@ -1324,7 +1364,7 @@ func TestVerifNotify(t *testing.T) {
 	for v := 0; v < 6; v++ {
 		runOps(fmt.Sprintf("s%d", v), nfScripted(verifRng(int64(v)), hookTok, v), "scripted")
 	}
-	n := verifN(500, 20000)
+	n := verifN(3000, 60000)
 	for c := 0; c < n; c++ {
 		rng := verifRng(int64(1000 + c))
 		g := &nfGen{rng: rng, n: 8 + rng.Intn(20), hook: hookTok, focus: c % 4}
